@@ -64,6 +64,10 @@ partial def datesOf (st : Step) : List Date :=
 def firesSpecYearly (mo da : Int) (st : Step) : Bool := (datesOf st).any fun t => t.m == mo && t.d == da
 def firesSpecEndOfYear (st : Step) : Bool := (datesOf st).any fun t => t.m == 12 && t.d == 31
 def firesSpecMonthly (st : Step) : Bool := (datesOf st).any fun t => t.isLastDayOfMonth
+/-- C08: spread is scheduled for a step iff the month of its first or of its last day lies in the season
+    (the right-hand side of theorem `C08_spread`). -/
+def firesSpecSpread (s e : Int) (st : Step) : Bool :=
+  decide ((s ≤ st.s.m ∧ st.s.m ≤ e) ∨ (s ≤ st.e.m ∧ st.e.m ≤ e))
 def shortStep (st : Step) : Bool := (datesOf st).length < 365
 
 def handle (st : State) (cmd : String) (inp obs : List String) : State × String :=
@@ -104,6 +108,19 @@ def handle (st : State) (cmd : String) (inp obs : List String) : State × String
     match date3? rest with
     | some (t, []) => (st, cmpDate cmd t.addDay obs)
     | _ => (st, "BADLINE")
+  -- Date::add_days / subtract_days: n successive days (the end date of a pesticide treatment, C10)
+  | "date.adddays", n :: rest =>
+    match parseNat? n, date3? rest, date3? obs with
+    | some n, some (t, []), some (o, []) =>
+      let m := iter Date.addDay n t
+      (st, if o = m then "ok" else s!"PROPFAIL C10 end_date_is_start_plus_days start={t.y}-{t.m}-{t.d} days={n} expected={m.y}-{m.m}-{m.d} observed={o.y}-{o.m}-{o.d}")
+    | _, _, _ => (st, "BADLINE")
+  | "date.subdays", n :: rest =>
+    match parseNat? n, date3? rest, date3? obs with
+    | some n, some (t, []), some (o, []) =>
+      let m := iter Date.subtractDay n t
+      (st, if o = m then "ok" else s!"MISMATCH date.subdays model={m.y}-{m.m}-{m.d}")
+    | _, _, _ => (st, "BADLINE")
   | "date.subday", rest =>
     match date3? rest with
     | some (t, []) => (st, cmpDate cmd t.subtractDay obs)
@@ -201,12 +218,29 @@ def handle (st : State) (cmd : String) (inp obs : List String) : State × String
     | _ => (st, "BADLINE")
   | "nsteps", [n] =>
     match parseNat? n with
-    | some n => (st, cmpBits cmd (scheduleNSteps st.steps n) obs)
+    | some n =>
+      -- definitional (theorem C08_nsteps): the n-th, 2n-th, ... step
+      let spec := (List.range st.steps.length).map fun i => n > 0 && (i + 1) % n == 0
+      match obs with
+      | [b] => if n > 0 && parseBits b != spec then (st, s!"PROPFAIL C08 every_n_steps n={n} spec={showBits spec}")
+               else (st, cmpBits cmd (scheduleNSteps st.steps n) obs)
+      | _ => (st, cmpBits cmd (scheduleNSteps st.steps n) obs)
     | none => (st, "BADLINE")
-  | "final", [] => (st, cmpBits cmd (scheduleEndOfSimulation st.steps) obs)
+  | "final", [] =>
+    let spec := (List.range st.steps.length).map fun i => i + 1 == st.steps.length
+    match obs with
+    | [b] => if parseBits b != spec then (st, s!"PROPFAIL C08 final_step spec={showBits spec}")
+             else (st, cmpBits cmd (scheduleEndOfSimulation st.steps) obs)
+    | _ => (st, cmpBits cmd (scheduleEndOfSimulation st.steps) obs)
   | "spread", [s, e] =>
     match parseInt? s, parseInt? e with
-    | some s, some e => (st, cmpBits cmd (scheduleSpread st.steps s e) obs)
+    | some s, some e =>
+      let spec := st.steps.map (firesSpecSpread s e)
+      match obs with
+      | [b] =>
+        if parseBits b != spec then (st, s!"PROPFAIL C08 spread season={s}-{e} spec={showBits spec}")
+        else (st, cmpBits cmd (scheduleSpread st.steps s e) obs)
+      | _ => (st, cmpBits cmd (scheduleSpread st.steps s e) obs)
     | _, _ => (st, "BADLINE")
   | "fromstring", [freq, n] =>
     match parseNat? n with
@@ -278,6 +312,7 @@ def handle (st : State) (cmd : String) (inp obs : List String) : State × String
               else if parseBits (if v == "-" then "" else v) != sp then some s!"PROPFAIL C08 config_wiring {key} observed={v} expected={showBits sp}"
               else none
             | _, _ => none
+          (chk "spread" true (some (sc.steps.map (firesSpecSpread c.seasonStart c.seasonEnd)))).orElse fun _ =>
           (chk "output" true (specOf sc.steps c.outFreq c.outN)).orElse fun _ =>
           (chk "mortality" c.useMortality (specOf sc.steps c.mortFreq c.mortN)).orElse fun _ =>
           (chk "lethal" c.useLethal (some (sc.steps.map (firesSpecYearly c.lethalMonth 1)))).orElse fun _ =>
